@@ -508,6 +508,7 @@ def run(ctx):
     ctx.rule("R-16.2", "the regenerated frame goes to a fresh file under exe_dir; system.config re-pointed; caller passes a copy", floor=10)
     ctx.rule("R-16.3", "momentum reset under zero_momentum between draw and write (external gmx refuses False)", floor=5)
     ctx.rule("R-16.4", "reported kinetic energy computed from the velocities that are written; system.ekin set to it", floor=5)
+    ctx.rule("R-16.5", "every random draw of velocity regeneration (and of the rest of the move/engine code) uses the job's stream, obtained at call time and never parked in instance state (shared with C07 R-7.4 / R-7.5)", floor=10)
     ctx.rule("R-16.8", "variance clause, symbolically: normal(0, sigma) with sigma^2*beta*mass == 1; beta*kB*T == 1 per engine; kB in the engine's energy unit; no rescaling between draw and writer except the engine's unit factor", floor=14)
     ctx.rule("R-16.7", "the frame index of the configuration that is dumped before velocity regeneration is tested with `is None`, never by truthiness (index 0 is a frame)", floor=5)
     ctx.rule("R-16.6", "positional role agreement in velocity regeneration: (dek, kin_new), (vel, sigma_v), (xyz, vel, box, names) and writer arguments sit where the callee returns / expects them", floor=15)
@@ -536,10 +537,16 @@ def run(ctx):
     ctx.attempt(frame_index_truthiness, ctx, "R-16.7", [GROMACS, CP2K, LAMMPS, TURTLE, ASE, ENGBASE], " (the whole multi-frame file is dumped instead of frame 0: velocities are regenerated for another frame)")
     P16 = ("modify_velocities", "draw_maxwellian_velocities", "_prepare_shooting_point", "kinetic_energy", "reset_momentum", "prepare_shooting_point")
     ctx.attempt(role_agreement, ctx, "R-16.6", [GROMACS, CP2K, LAMMPS, TURTLE, ASE, ENGBASE, TIS], lambda q, f: f.name in P16, " (velocity regeneration would write / report the wrong quantity)")
-    ctx.note("R-16.5 (draws use the job stream) is decided under C07 R-7.4 for the same call sites")
+    from . import c07
+    from .shared import RuleProxy
+    px = RuleProxy(ctx, "R-16.5", " (velocity regeneration is then not reproducible from the job's random stream)")
+    ctx.attempt(c07.r74, px)
+    ctx.attempt(c07.r75, px)
 
 
 VARIANTS = [
+    B("c16-ase-genvel-settings-cached", ASE, "        self.kb = 8.61733326e-5  # eV/K", "        self.genvel_settings = {\"temperature_K\": self.temperature, \"rng\": getattr(self, \"rgen\", None)}\n        self.kb = 8.61733326e-5  # eV/K", "R-16.5", control=True, why="seeded C16_d",
+      also=[(ASE, "        MaxwellBoltzmannDistribution(\n            atoms,\n            temperature_K=self.temperature,\n            rng=getattr(self, \"rgen\", None),\n        )", "        MaxwellBoltzmannDistribution(atoms, **self.genvel_settings)")]),
     B("c16-sigma-times-mass", ENGBASE, "            sigma_v = np.sqrt(kbt * (1 / mass))", "            sigma_v = np.sqrt(kbt * mass)", "R-16.8", control=True),
     B("c16-sigma-without-sqrt-argument-inverse", ENGBASE, "            kbt = 1.0 / beta\n", "            kbt = beta\n", "R-16.8"),
     B("c16-draw-variance-as-scale", ENGBASE, "vel = self.rgen.normal(loc=0.0, scale=sigma_v, size=(npart, dim))", "vel = self.rgen.normal(loc=0.0, scale=sigma_v**2, size=(npart, dim))", "R-16.8"),
